@@ -293,10 +293,19 @@ pub fn execute(case: &Value, scratch: &str) -> Outcome {
     if dest_existing {
         std::fs::write(&dest, &old).unwrap();
     }
-    let from = format!("{}/in.xlsx", root);
+    let mut from = format!("{}/in.xlsx", root);
+    let mut old = old;
     if api == "set_password" {
-        std::fs::write(&from, &reference.bytes).unwrap();
+        if case["same_path"].as_bool().unwrap_or(false) {
+            // encrypt a file in place: the old content of the destination is the plain package
+            from = dest.clone();
+            old = reference.bytes.clone();
+            std::fs::write(&dest, &old).unwrap();
+        } else {
+            std::fs::write(&from, &reference.bytes).unwrap();
+        }
     }
+    let dest_existing = dest_existing || (api == "set_password" && case["same_path"].as_bool().unwrap_or(false));
 
     shim::arm(ShimState::new(&root, &dest, plan.clone()));
     let result = guarded(|| {
@@ -589,6 +598,7 @@ pub fn cases(run_seed: u64, tier: &str, scratch: &str) -> Vec<Value> {
     let wrap = ["", "\"", "'"][sw.usize(3)];
     base["csv"] = json!({"enc": sw.below(10), "trim": sw.chance(1, 2), "wrap": wrap});
     base["faults"] = json!([]);
+    base["same_path"] = json!(api == "set_password" && sw.chance(1, 3));
     let mut out: Vec<Value> = Vec::new();
 
     if SINK_APIS.contains(&api) {
